@@ -39,8 +39,8 @@ func setKey(ids []wsim.ID) string {
 func check(tb ev.TB, c wsim.Case) (labels []string, nontrivial bool) {
 	res := wsim.Run(c)
 	if res.CloseHung {
+		// Close not returning is C09's business; what was appended so far still has to respect the order rules
 		ev.Inconclusive("close_hung")
-		return nil, false
 	}
 	fail := func(sig, format string, args ...any) {
 		var b strings.Builder
@@ -73,6 +73,9 @@ func check(tb ev.TB, c wsim.Case) (labels []string, nontrivial bool) {
 		for _, r := range res.Logs[k.t][k.p] {
 			id, _ := wsim.ParseID(r.Value)
 			inLog = append(inLog, id)
+		}
+		if res.CloseHung && len(inLog) <= len(fromReqs) {
+			fromReqs = fromReqs[:len(inLog)] // the writer is still running: the journal may be ahead of the log snapshot
 		}
 		if fmt.Sprint(fromReqs) != fmt.Sprint(inLog) {
 			tb.Fatalf("harness: log of %s/%d %v is not the concatenation of the applied requests %v", k.t, k.p, inLog, fromReqs)
@@ -189,6 +192,28 @@ func TestOrder(t *testing.T) {
 			}
 			c.Callers = [][]wsim.Call{calls}
 			c.SettleMs = 500
+		case 3:
+			// stampede: several submitters make the first ever submission to one partition at the same moment; each then
+			// fills a batch at once, while its first message still sits in a partial batch waiting for BatchTimeout
+			c.Async = true
+			c.BatchSize = rapid.IntRange(2, 3).Draw(t, "stampedeBatchSize")
+			c.BatchTimeoutMs = rapid.IntRange(20, 60).Draw(t, "stampedeTimeoutMs")
+			c.Balancer = "first"
+			c.Faults = nil
+			proto := c.Callers[0][0].Msgs[0]
+			proto.ForceTopic = ""
+			if !c.WriterTopic {
+				proto.Topic = c.Topics[0]
+			}
+			full := make([]wsim.Msg, c.BatchSize)
+			for k := range full {
+				full[k] = proto
+			}
+			c.Callers = nil
+			for i, n := 0, rapid.IntRange(3, 8).Draw(t, "stampede"); i < n; i++ {
+				c.Callers = append(c.Callers, []wsim.Call{{Msgs: []wsim.Msg{proto}}, {Msgs: full}})
+			}
+			c.SettleMs = c.BatchTimeoutMs + 500
 		}
 		labels, nt := check(t, c)
 		if c.LoggerDelayUs > 0 {
